@@ -1,10 +1,15 @@
 import HdVerif.Proofs.SegFrameLoop
+import HdVerif.Proofs.SegGeomTie
+import HdVerif.Generated.T7b
+import HdVerif.Generated.T7g
+import HdVerif.Generated.TC10f
 import Mathlib.Data.Finset.Card
 import Mathlib.Data.List.Dedup
 /-! Lemmas for the tiles a TILED_SPARSE segmentation stores (`Model/SegFrameLoop.lean`, `tileFrames`): every frame is a tile
 of the grid at the grid's position, the dimension index values are strictly monotone in row / column / x / y / z. -/
 namespace HdVerif.SegTileFramesLemmas
 open HdVerif HdVerif.Gen HdVerif.SegGeom HdVerif.SegGeom.V3 HdVerif.SegFrameLoop HdVerif.SegGeomLemmas HdVerif.SegFrameLoopLemmas
+open HdVerif.SegGeomTie
 
 /-! ## `rankOf`: position among the sorted distinct values -/
 
@@ -148,5 +153,77 @@ theorem mem_tileFrames (origin rowCos colCos : V3) (psRow psCol : Rat) (R C tr t
   have : rc = (f.row, f.col) := h4
   subst this
   refine ⟨hs, List.mem_of_getElem? hrc, hrc, h5.symm, h2, hk⟩
+
+/-! ## bridge: tile grid and tile positions from the regenerated expressions of `compute_tile_positions_per_frame` -/
+
+/-- the tile grid written from the regenerated expressions: tile counts `Gen.tilesPerAxisFloor` (T7b), running order
+`Gen.tileGridRanges` (T7g: fastest range first), offsets `Gen.tileOffsetOf` (T7g: 0-based pixel index pair handed to the
+transformer, 1-based offset pair reported) -/
+def tileGridGen (R C tr tc : Nat) : List (Int × Int) :=
+  match tilesPerAxisFloor tr tc R C with
+  | .error _ => []
+  | .ok (nc, nr) =>
+    match tileGridRanges nc nr with
+    | .error _ => []
+    | .ok (fast, slow) =>
+      (List.range slow.toNat).flatMap (fun (i : Nat) => (List.range fast.toNat).map (fun (j : Nat) =>
+        match tileOffsetOf (j : Int) (i : Int) tr tc with
+        | .ok (_, _, c1, r1) => (r1, c1)
+        | .error _ => (0, 0)))
+
+/-- index direction code of `Gen.rotSelect` for a letter of an index convention -/
+def convCode (c : Char) : Int := if c = 'R' then 0 else if c = 'L' then 1 else if c = 'D' then 2 else 3
+
+/-- `PixelToReferenceTransformer(image_position, image_orientation, pixel_spacing)` on the 0-based pixel index `(p0, p1)`:
+`create_affine_matrix_from_attributes` with its DEFAULT index convention (`Gen.affineDefaultConvention`, TC10f; the
+transformer passes none: `Gen.pixToRefCall`) and the regenerated column selections of `create_rotation_matrix`
+(`Gen.rotSelect`, TC03rot) -/
+def pixToRefGen (origin rowCos colCos : V3) (psRow psCol : Rat) (p0 p1 : Int) : V3 :=
+  match affineDefaultConvention with
+  | [a, b] =>
+    match rotSelect (convCode a), rotSelect (convCode b) with
+    | .ok (c0, s0, q0), .ok (c1, s1, q1) =>
+      add (add origin (smul ((p0 : Rat) * pickSp psRow psCol q0) (pickCos rowCos colCos c0 s0)))
+        (smul ((p1 : Rat) * pickSp psRow psCol q1) (pickCos rowCos colCos c1 s1))
+    | _, _ => origin
+  | _ => origin
+
+theorem ceil_div_eq (n t : Nat) (hn : 0 < n) (ht : 0 < t) : Int.fdiv ((n : Int) - 1) (t : Int) + 1 = (((n + t - 1) / t : Nat) : Int) := by
+  have h1 : (0 : Int) ≤ (n : Int) - 1 := by omega
+  have h2 : (0 : Int) ≤ (t : Int) := by omega
+  rw [Int.fdiv_eq_ediv_of_nonneg _ h2]
+  have : ((n : Int) - 1) = ((n - 1 : Nat) : Int) := by omega
+  rw [this]
+  norm_cast
+  have : n + t - 1 = (n - 1) + t := by omega
+  rw [this, Nat.add_div_right _ ht]
+
+/-- **bridge 5a**: the grid of the model is the regenerated enumeration -/
+theorem tileGrid_eq_gen (R C tr tc : Nat) (hR : 0 < R) (hC : 0 < C) (htr : 0 < tr) (htc : 0 < tc) :
+    tileGrid R C tr tc = tileGridGen R C tr tc := by
+  unfold tileGrid tileGridGen tilesPerAxisFloor tileGridRanges tileOffsetOf
+  simp only [ceil_div_eq R tr hR htr, ceil_div_eq C tc hC htc, Int.toNat_natCast]
+  apply List.flatMap_congr
+  intro i _
+  apply List.map_congr_left
+  intro j _
+  simp only [Prod.mk.injEq]
+  constructor <;> push_cast <;> ring
+
+/-- **bridge 5b**: the position the model gives a tile is the regenerated transformer on the regenerated 0-based pixel
+index pair of that tile -/
+theorem tilePosition_eq_gen (origin rowCos colCos : V3) (psRow psCol : Rat) (i j : Nat) (tr tc : Nat) :
+    match tileOffsetOf (j : Int) (i : Int) tr tc with
+    | .ok (p0, p1, c1, r1) => tilePosition origin rowCos colCos psRow psCol r1 c1 = pixToRefGen origin rowCos colCos psRow psCol p0 p1
+    | .error _ => False := by
+  unfold tileOffsetOf
+  simp only
+  unfold tilePosition pixToRefGen affineDefaultConvention rotSelect convCode
+  simp only [pickCos, pickSp]
+  obtain ⟨ox, oy, oz⟩ := origin
+  obtain ⟨rx, ry, rz⟩ := rowCos
+  obtain ⟨cx, cy, cz⟩ := colCos
+  simp [add, smul]
+  refine ⟨by ring, by ring, by ring⟩
 
 end HdVerif.SegTileFramesLemmas
